@@ -908,5 +908,10 @@ pub fn execute(scn: &E2Scn, policy: Policy, sched_seed: u64) -> RunOut {
     install_watcher_factory();
     let scn = scn.clone();
     watchexec::verif::set_hash_seed(scn.hash_seed);
-    run_sim(policy, sched_seed, SimOpts { enable_io: true }, move || e2_root(scn))
+    // anything the code under test hands to the blocking pool takes 0 - 400 virtual ms (dormant on the current tree,
+    // which does not use the pool on these paths)
+    tokio::runtime::sim::set_blocking_latencies(Some(vec![0, 0, 1, 30, 400]));
+    let out = run_sim(policy, sched_seed, SimOpts { enable_io: true }, move || e2_root(scn));
+    tokio::runtime::sim::set_blocking_latencies(None);
+    out
 }
